@@ -219,6 +219,9 @@ def validate(func, /, *args, **kwds):
     bad_kwds = set(i.strip('!') for i in defaults if i.startswith('!'))
     # strip markup
     named, defaults = strip_markup(named, defaults)
+    # the instance of a bound method can't also be given as a keyword
+    if inspect.ismethod(func) and func.__self__ is not None:
+        bad_kwds.update(inspect.getfullargspec(func).args[:1])
 
     # FAIL if partial built for **kwds, but **kwds not used in func.func
     p_varkwds = set(p_kwds) - bad_kwds - bad_args - kwonly
